@@ -7,7 +7,7 @@ use liwe::model::node::NodePointer;
 use lsp_types::*;
 
 use liwe::graph::GraphContext;
-use liwe::model::{Content, Key};
+use liwe::model::{ref_url, Content, Key};
 
 use super::action::Change;
 use super::BasePath;
@@ -272,7 +272,11 @@ pub impl Key {
     }
 
     fn to_link(&self, text: String, relative_to: &str) -> String {
-        format!("[{}]({})", text, self.to_rel_link_url(relative_to))
+        format!(
+            "[{}]({})",
+            text,
+            ref_url(&self.to_rel_link_url(relative_to), "")
+        )
     }
 
     fn to_completion(
